@@ -1729,7 +1729,7 @@ fn main() {
 		PartSpec {
 			name: "validity",
 			rule: "graph of 2-40 nodes (parallel channels, cycles, per direction enabled/disabled/missing, zero to extreme fees, capacity known or not) + scorer history + 40 queries with every parameter varied (first hops, 1-3 hop route hints, 1-3 hop blinded paths, amounts around each limit +-1 up to beyond all satoshis, path count/length/CLTV/fee caps, saturation power, failed channels and blinded paths, fixed / probabilistic scorer with and without in-flight HTLCs); every Ok route goes through the validator; a query is non-trivial if the returned route has a path of >=2 hops with some constraint (min, max, capacity, fee cap, CLTV cap) within 1% of binding, or is multi-path sharing a channel",
-			quick_cases: 40_000,
+			quick_cases: 50_000,
 			thorough_cases: 1_600_000,
 			max_shrink: 600,
 		},
@@ -1740,7 +1740,7 @@ fn main() {
 		PartSpec {
 			name: "completeness",
 			rule: "graph of 2-12 nodes + 24 queries inside the slack regime (see assumptions); every Ok route is validated; non-trivial if an own depth-first search finds a single strong-slack reference path of >=2 edges with no near-binding edge anywhere: then find_route must not report failure",
-			quick_cases: 25_000,
+			quick_cases: 30_000,
 			thorough_cases: 1_000_000,
 			max_shrink: 600,
 		},
